@@ -301,6 +301,7 @@ func (c *completion) identityGuarded(ls *Locksets, d MapOp, callVar ssa.Value, l
 func runC02(c *Check, a *Analysis) {
 	p := c.P
 	ls := a.Locks()
+	ruleDoneOwned(c, a, "R-DONE-OWNED")
 	c.Rule("R-LOCK", "every access to Conn.pending / Conn.shutdown / Conn.closing happens with Conn.mutex held", 8)
 	ruleLock(c, a, "R-LOCK", "Conn", "pending", "shutdown", "closing")
 
